@@ -18,7 +18,9 @@ PROP = dict(
         quick=[job("lnwallet", "^TestVerifC03", ["TestVerifC03Resync"], 60, shards=8, timeout=600,
                    env=dict(VERIF_STEPS=50))],
         thorough=[job("lnwallet", "^TestVerifC03", ["TestVerifC03Resync"], 500, shards=16, timeout=2400,
-                      env=dict(VERIF_STEPS=120))],
+                      env=dict(VERIF_STEPS=120)),
+                  job("lnwallet", "^TestVerifC03Resync$", ["TestVerifC03Resync"], 60, shards=16, timeout=2400,
+                      tags="verif kvdb_sqlite", env=dict(VERIF_STEPS=80))],
     ),
     also=["C01"],
 )
